@@ -20,7 +20,7 @@ def put(tag, body):
     global s
     b, e = "<!-- BEGIN %s -->" % tag, "<!-- END %s -->" % tag
     if b in s:
-        s = re.sub(re.escape(b) + ".*?" + re.escape(e), b + "\n" + body + e, s, flags=re.S)
+        s = re.sub(re.escape(b) + ".*?" + re.escape(e), lambda m: b + "\n" + body + e, s, flags=re.S)
 put("FIXED", t1)
 put("KNOWN", t2)
 open(p, "w").write(s)
